@@ -17,14 +17,17 @@ def build(root, seed, big=False):
     rnd = random.Random(seed)
     d = os.path.join(root, 'c')
     c = Container(d)
-    c.init_container(clear=True, pack_size_target=rnd.choice([120, 10 ** 9]), compression_algorithm=f'zlib+{rnd.randint(1, 9)}')
+    # a small target spreads the objects over several packs (damage in any pack, not only the last one validated, must be reported)
+    c.init_container(clear=True, pack_size_target=(60 if seed % 4 != 3 else 10 ** 9), compression_algorithm=f'zlib+{rnd.randint(1, 9)}')
     objs = [b'hello world ' * 5, rnd.randbytes(40), b'', b'z' * 44, b'q', rnd.randbytes(17) * 3]
     if big:
         objs.append((b'compressible text ' * 5000)[:66000])
     ks = c.add_objects_to_pack(objs[:2] + objs[6:], compress=True) + c.add_objects_to_pack(objs[2:4], compress=False)
     ks += [c.add_object(objs[4]), c.add_object(objs[5])]
     order = objs[:2] + objs[6:] + objs[2:4] + [objs[4], objs[5]]
+    npacks = len(list(c._list_packs()))
     c.close()
+    assert seed % 4 == 3 or npacks >= 2, npacks
     return d, dict(zip(ks, order))
 
 
